@@ -292,7 +292,7 @@ func TestC12_AccessPaths(t *testing.T) {
 
 func TestC12_FixedShapes(t *testing.T) {
 	c := harness.New(t, "C12", "fixed-shapes",
-		"hand-written shapes: every integer width at its extremes (within int64), float32 rounding, unexported fields (must not be reachable by any spelling), embedded struct (reachable as a field), nil at every pointer/interface position of a struct, pointer to pointer, pointer to struct inside slice inside map, nil slice and nil map, first-letter fallback for struct fields only. Non-trivial: all. Distinct by construction.")
+		"hand-written shapes: every integer width at its extremes (within int64), float32 rounding, unexported fields (must not be reachable by any spelling), embedded struct (reachable as a field), nil at every pointer/interface position of a struct, pointer to pointer, pointer to struct inside slice inside map, one pointer shared by several slice elements / struct fields / map values, several pointers to zero-size values, nil slice and nil map, first-letter fallback for struct fields only. Non-trivial: all. Distinct by construction.")
 	defer c.Finish()
 	type shape struct {
 		name string
@@ -310,7 +310,25 @@ func TestC12_FixedShapes(t *testing.T) {
 	pf := &spec.Value{T: spec.FixedType("PtrFields"), Items: []*spec.Value{spec.NilPtr(spec.T(spec.TInt)), spec.Ptr(spec.String("sv")), spec.NilPtr(spec.FixedType("Inner")), spec.NilAny()}}
 	deep := spec.Map(spec.T(spec.TAny), []string{"list"}, []*spec.Value{spec.Any(spec.Slice(spec.PtrTo(spec.StructOf(spec.Field{Name: "Name", T: spec.T(spec.TString)})),
 		spec.Ptr(spec.Struct([]string{"Name"}, []*spec.Value{spec.String("first")})), spec.Ptr(spec.Struct([]string{"Name"}, []*spec.Value{spec.String("second")}))))})
+	// one pointer reachable several times (shared, not cyclic) is ordinary data
+	author := spec.Ptr(spec.Struct([]string{"Name", "Age"}, []*spec.Value{spec.String("Ann"), spec.IntOf(spec.TInt, 33)}))
+	author.Share = "author"
+	post := func(title string) *spec.Value {
+		return spec.Struct([]string{"Title", "Author"}, []*spec.Value{spec.String(title), author})
+	}
+	posts := spec.Slice(post("a").T, post("first"), post("second"), post("third"))
+	sharedInt := spec.Ptr(spec.IntOf(spec.TInt, 77))
+	sharedInt.Share = "n"
+	twice := spec.Struct([]string{"A", "B", "L"}, []*spec.Value{sharedInt, sharedInt, spec.Slice(sharedInt.T, sharedInt, sharedInt)})
+	sharedMap := spec.Map(spec.T(spec.TAny), []string{"x", "y"}, []*spec.Value{spec.Any(author), spec.Any(author)})
+	empty := spec.Ptr(&spec.Value{T: spec.StructOf()})
+	empties := spec.Slice(empty.T, empty, spec.Ptr(&spec.Value{T: spec.StructOf()}), spec.Ptr(&spec.Value{T: spec.StructOf()}))
 	shapes := []shape{
+		{"shared-pointer-first-use", posts, "d[0].author.name", asStr("Ann")}, {"shared-pointer-second-use", posts, "d[1].author.name", asStr("Ann")},
+		{"shared-pointer-third-use-index", posts, `d[2]["Author"].age`, asInt(33)}, {"shared-pointer-sibling-field", posts, "d[1].title", asStr("second")},
+		{"shared-pointer-two-fields", twice, "d.b", asInt(77)}, {"shared-pointer-field-then-slice", twice, "d.l[1]", asInt(77)},
+		{"shared-pointer-two-map-values", sharedMap, "d.y.name", asStr("Ann")},
+		{"pointers-to-zero-size-values", empties, "d.len()", asInt(3)},
 		{"int8-min", spec.IntOf(spec.TInt8, -128), "d", asInt(-128)}, {"int16-max", spec.IntOf(spec.TInt16, 32767), "d", asInt(32767)},
 		{"int32-min", spec.IntOf(spec.TInt32, -2147483648), "d", asInt(-2147483648)}, {"int64-max", spec.IntOf(spec.TInt64, math.MaxInt64), "d", asInt(math.MaxInt64)},
 		{"int64-min", spec.IntOf(spec.TInt64, math.MinInt64), "d", asInt(math.MinInt64)}, {"uint8-max", spec.IntOf(spec.TUint8, 255), "d", asInt(255)},
